@@ -41,11 +41,9 @@ SPEC = dict(
         "observable depends on the toolchain",
     ],
     assumptions=["programs with unbounded recursion are outside (fuel), as the property allows",
-                 "the correspondence compares with the code AS IT IS for add / del: results agree with the list model (builtins_refine_spec), but "
-                 "Go slice aliasing makes add(l, v[, i]) / del(l, i) change OTHER list values (the argument itself, earlier results) and "
-                 "del(map, number) does not remove a number key — deviations from the property's list / map model, witnessed by "
-                 "add_del_alias_deviation; proposed repair: fixes/C05-add-del-aliasing.patch (unedited suite passes twice); until it is "
-                 "applied or the deviations are listed as known findings they are NOT reported by this check",
+                 "the model describes add / del AFTER the repairs fixes/C05-add-del-new-list.patch (add and del return new lists) and "
+                 "fixes/C05-del-number-key.patch (del(map, k) removes an existing number key): on a tree without them the corpus cases "
+                 "`b := add(a,4); c := add(a,5)`, `del(a,0)`, `del({1:x},1)` are reported (unrepaired_add_del_deviate = the witnesses)",
                  "programs that stringify non-integral numbers / mixed-key maps or call inside a longer access chain are outside the model (UNSUP, counted)"],
     decode=decode,
 )
@@ -61,8 +59,9 @@ META = dict(
                 "args_missing_default_extra_ignored; read_after_write_path on setValue / getValue themselves for any nesting (containerWalk "
                 "and containerGet reach the same cell, fieldKey = the key setValue writes, negative list indices) and "
                 "prims_by_value_containers_by_ref (a write through one name is read through any alias reaching the same cell); "
-                "len_add_del_model, add_insert_concat_model (Go slices incl. aliasing), builtins_refine_spec / append_refines_when_unaliased "
-                "against an independent list Spec, add_del_alias_deviation (witnesses of the deviations); objects: "
+                "len_add_del_concat_model: len / add / add-at-index / del / del(map) / concat refine an independent list / finite-map Spec, every "
+                "list result is a NEW cell and no existing array changes (no side condition), unrepaired_add_del_deviate (negative witnesses "
+                "for the code before the repairs); objects: "
                 "new_has_all_template_props (string keys of all templates reachable through super lists, cyclic templates cut as f42b440 does; "
                 "own non-function property wins), method_this, init_once_with_args, init_once_with_args_and_supers, init_reads_super, "
                 "addSuperClasses_cycle."),
@@ -73,8 +72,7 @@ META = dict(
                 "where Go drops it (unreachable for parser-made names). Hypotheses: Float == reflexive on integer keys (Lean's Float is "
                 "opaque); object theorems are about string keys, templates other than the fresh object, list slot 0 = nil slice; no "
                 "parameter named this/super for the this/super value theorems; slices with len <= capacity; paths that do not pass through "
-                "the cell they write. add/del aliasing and del(map, number) deviate from the list/map model (see assumptions, "
-                "fixes/C05-add-del-aliasing.patch). Outside the model (not compared): mutex blocks, f()() / o.m().k chains after a call, "
+                "the cell they write. Outside the model (not compared): mutex blocks, f()() / o.m().k chains after a call, "
                 "stringified mixed-key maps / functions / non-integral floats."),
 )
 
